@@ -20,6 +20,9 @@ OPS = os.path.join(CACHE, "ops")
 REPLAYS = os.path.join(VERIF, "replays")
 EVIDENCE = os.path.join(VERIF, "evidence")
 DRIVER = os.path.join(LEAN, ".lake", "build", "bin", "tlsh-model")
+# last driver that built: used for the reference side (Ref/Spec only) when the current tree's
+# generated files no longer compile (e.g. a kernel the translator cannot handle)
+DRIVER_FALLBACK = os.path.join(CACHE, "driver-good", "tlsh-model")
 
 ALLOWED_AXIOMS = {"propext", "Classical.choice", "Quot.sound"}
 
@@ -250,9 +253,40 @@ def run_stream(prop, cfg, stream, seed, budget, extra=()):
 SUMMARY_RE = re.compile(r"SUMMARY lines=(\d+) ops=(\d+) model_mm=(\d+) spec_mm=(\d+) self_mm=(\d+) unknown=(\d+) oracle=(\d+)")
 
 
+def save_good_driver():
+    try:
+        os.makedirs(os.path.dirname(DRIVER_FALLBACK), exist_ok=True)
+        shutil.copy2(DRIVER, DRIVER_FALLBACK)
+    except OSError:
+        pass
+
+
+_DRIVER_BIN = [DRIVER]
+
+
+def use_fallback_driver():
+    if os.path.exists(DRIVER_FALLBACK):
+        _DRIVER_BIN[0] = DRIVER_FALLBACK
+        return True
+    return False
+
+
 def run_driver_file(path):
-    p = subprocess.run([DRIVER, path], stdout=subprocess.PIPE, stderr=subprocess.STDOUT, text=True, env=ENV)
+    p = subprocess.run([_DRIVER_BIN[0], path], stdout=subprocess.PIPE, stderr=subprocess.STDOUT, text=True, env=ENV)
     return p.returncode, p.stdout
+
+
+def oracle_lines(ops_file):
+    """ORACLE lines the probe wrote itself (available even without a model driver)."""
+    out = []
+    try:
+        with open(ops_file) as f:
+            for i, line in enumerate(f, 1):
+                if line.startswith("ORACLE "):
+                    out.append(f"OR {i} | {line.rstrip()[:6000]}")
+    except OSError:
+        pass
+    return out
 
 
 def run_driver(ops_file, shards=8):
